@@ -33,6 +33,35 @@ def _mentions_call(t, name):
     return False
 
 
+def warehouse_copy(ck, F, prefix):
+    """get_product / get_sum(const Warehouse&): the node is keyed on the Lexicon's own copy of the contents, on every path; borrowed
+    by C19 (a node keyed on the caller's Warehouse refers to storage that dies with it)."""
+    RWh = ck.rule(f'{prefix}.warehouse-copy', 'get_product/get_sum(const Warehouse&) key the node on a sequence owned by '
+                  'the Lexicon (the unified copy in type_seqs), not on the caller\'s Warehouse, on every path (an empty Warehouse included)', floor=2)
+    getters = [f for f in F.fn.values() if f['name'] in ('get_product', 'get_sum') and f.get('parent') == 'ipr::impl::type_factory'
+               and f.get('body') and f['params'] and 'Warehouse' in f['params'][0]['t']]
+    S3 = Sym(F, opaque=contracts.default_opaque(F), max_depth=48)
+    for f in sorted(getters, key=lambda f: f['id']):
+        try:
+            outs = [o for o in S3.run(f['id']) if o[1] == 'return']
+        except Unsupported as e:
+            raise AnalysisBroken(f'{f["id"]}: {e}')
+        bad = []
+        for st, kind, v in outs:
+            ins = [e for e in st.effects if e[0] == 'tree_insert']
+            tabs = [contracts.render(e[1], st, {}) for e in ins]
+            when = contracts.render_conds(st.conds, st, {})[:80]
+            if not ins or tabs[0] != '$this.type_seqs':
+                bad.append(f'tables reached: {tabs}' + (f' when {when}' if when else ''))
+                continue
+            seq_obj = ins[0][4]
+            later = [e for e in ins[1:]]
+            if not later or any(e[2] != seq_obj for e in later):
+                bad.append('the node is keyed on ' + ', '.join(contracts.render(e[2], st, {})[:50] for e in later) + (f' when {when}' if when else ''))
+        ck.check(RWh, contracts.short(contracts.fn_qname(f['id'])) + '(Warehouse)', bool(outs) and not bad,
+                 'the node is keyed on the caller\'s sequence: ' + '; '.join(bad[:2]), loc=f['loc'], fn=f['id'])
+
+
 def run(ck, F):
     ck.explanation = (
         'For every type constructor of type_factory the factory body is evaluated symbolically (branch-free '
@@ -244,26 +273,5 @@ def run(ck, F):
         c1, c2 = contract_with(f1, a1), contract_with(f2, a2)
         ck.check(RD, name, c1 == c2, f'{name} does not hold', loc=F.fn[f1]['loc'], fn=f1)
 
-    # Warehouse contents are copied (and unified) before a product/sum is keyed on them
-    RWh = ck.rule('C01.warehouse-copy', 'get_product/get_sum(const Warehouse&) key the node on a sequence owned by '
-                  'the Lexicon (the unified copy in type_seqs), not on the caller\'s Warehouse', floor=2)
-    for f in getters:
-        if f['name'] in ('get_product', 'get_sum') and 'Warehouse' in f['params'][0]['t']:
-            S3 = Sym(F, opaque=contracts.default_opaque(F), max_depth=48)
-            outs = S3.run(f['id'])
-            good = len(outs) == 1
-            what = ''
-            if good:
-                st, kind, v = outs[0]
-                ins = [e for e in st.effects if e[0] == 'tree_insert']
-                tabs = [contracts.render(e[1], st, {}) for e in ins]
-                good = len(ins) == 2 and tabs[0] == '$this.type_seqs'
-                if good:
-                    seq_obj = ins[0][4]
-                    key2 = ins[1][2]
-                    good = key2 == seq_obj
-                    what = f'second table is keyed on {contracts.render(key2, st, {})}'
-                else:
-                    what = f'tables reached: {tabs}'
-            ck.check(RWh, contracts.short(contracts.fn_qname(f['id'])) + '(Warehouse)', good,
-                     'the node is keyed on the caller\'s sequence: ' + what, loc=f['loc'], fn=f['id'])
+    warehouse_copy(ck, F, 'C01')
+
